@@ -38,8 +38,6 @@ func (vc *VC) smtText(o *Obligation) string {
 	var b strings.Builder
 	b.WriteString("(set-option :produce-models true)\n(set-logic ALL)\n")
 	b.WriteString(vc.P.prelude.textFor(vc))
-	b.WriteString("; ---- struct sorts\n")
-	b.WriteString(vc.ss().decls())
 	b.WriteString("; ---- declarations of " + vc.name + "\n")
 	for _, d := range vc.decls {
 		b.WriteString(d)
